@@ -40,6 +40,7 @@ type Obligation struct {
 
 // Ctx is the loaded program plus the obligations collected so far.
 type Ctx struct {
+	csIdx *callSiteIdx
 	Repo    string
 	Tier    string
 	Fset    *token.FileSet
@@ -402,12 +403,12 @@ func (c *Ctx) infoOf(fn *ssa.Function) *types.Info {
 type KnownFinding struct {
 	Property   string   `json:"property"`
 	Properties []string `json:"properties,omitempty"` // further properties served by the same rule and construct
-	Rule      string `json:"rule"`
-	Construct string `json:"construct"`
-	Status    string `json:"status"` // "known" | "fixed"
-	Commit    string `json:"commit,omitempty"`
-	Fails     string `json:"fails"`
-	Why       string `json:"why_not_repaired,omitempty"`
+	Rule       string   `json:"rule"`
+	Construct  string   `json:"construct"`
+	Status     string   `json:"status"` // "known" | "fixed"
+	Commit     string   `json:"commit,omitempty"`
+	Fails      string   `json:"fails"`
+	Why        string   `json:"why_not_repaired,omitempty"`
 }
 
 func loadKnown(path string) ([]KnownFinding, error) {
